@@ -89,6 +89,12 @@ func (w *diffWorld) do(op model.Op) (bool, *failure) {
 		return e
 	}
 	r1.Err, r2.Err = norm(r1.Err), norm(r2.Err)
+	if op.Kind == "BatchWrite" && r1.Err != "" && r2.Err != "" {
+		// a batch with more than one defect (say an unknown table and a wrongly typed
+		// index key): which one is reported depends on the order in which the request
+		// map is walked; both clients refusing it is what is compared
+		r2.Err = r1.Err
+	}
 	c1, c2 := resultCanon(op, r1), resultCanon(op, r2)
 	// open finding F-V2EMPTY: the v2 client returns empty lists / maps as NULL.
 	// The v1 client returns them faithfully, so "the v1 response holds an empty
@@ -308,12 +314,36 @@ func TestC17(t *testing.T) {
 				lateIdx++
 				ix := model.IndexSchema{Name: fmt.Sprintf("late%d", lateIdx), Global: true, Hash: rapid.SampledFrom([]string{"g1", "g2", "r1"}).Draw(rt, "lateHash")}
 				attrs := map[string]string{}
-				if ty, ok := t.Schema.Attrs[ix.Hash]; ok {
+				inUse := ix.Hash == t.Schema.Hash || ix.Hash == t.Schema.Range
+				for _, x := range t.Schema.Indexes {
+					inUse = inUse || x.Hash == ix.Hash || x.Range == ix.Hash
+				}
+				if ty, ok := t.Schema.Attrs[ix.Hash]; ok && inUse {
 					attrs[ix.Hash] = ty
 				} else {
-					attrs[ix.Hash] = "S"
+					// not (or no longer) a key of anything: it may be declared afresh, with any type
+					attrs[ix.Hash] = rapid.SampledFrom([]string{"S", "S", "N"}).Draw(rt, "lateHashType")
 				}
 				step(model.Op{Kind: "AddIndex", Table: s.Table, IndexSchema: &ix, IndexAttrs: attrs})
+			},
+			"delIndex": func(rt *rapid.T) {
+				t := w.m.Tables[s.Table]
+				if t == nil || rapid.IntRange(0, 2).Draw(rt, "reallyDelIndex") != 1 {
+					return
+				}
+				var globals []string
+				for _, x := range t.Schema.Indexes {
+					if x.Global {
+						globals = append(globals, x.Name)
+					}
+				}
+				if len(globals) == 0 {
+					return
+				}
+				step(model.Op{Kind: "DeleteIndex", Table: s.Table, Index: rapid.SampledFrom(globals).Draw(rt, "delIx")})
+				if lateIdx > 0 {
+					lateIdx-- // the name may be used again
+				}
 			},
 			"recreate": func(rt *rapid.T) {
 				if rapid.IntRange(0, 7).Draw(rt, "reallyRecreate") != 0 {
@@ -636,6 +666,11 @@ func runC19(c c19Case, st *stats.Collector) *failure {
 			}
 		}
 	}
+	if wb.diverged || ws.diverged {
+		// the history contained a request DynamoDB rejects and the implementation
+		// accepted it: the reference model cannot follow, the case ends here
+		return nil
+	}
 	if c.Batch.Kind == "BatchGet" {
 		res, status, f := wb.do(c.Batch)
 		if f != nil || status != stepDone {
@@ -755,7 +790,7 @@ func init() {
 	}
 }
 
-const ruleC19 = "rapid: a state built by a short history (Put, UpdateItem, DeleteItem, BatchGetItem, ClearTable) on 1-3 tables (0-2 indexes each), then one BatchWriteItem (1-25 requests, mixed puts and deletes, several tables, keys present and absent; batches above 20 requests generated with fixed weight; in a fifth of the cases a key may be named twice - DynamoDB rejects those, an implementation that accepts one is compared with the individual requests in the order given) or one BatchGetItem (1-15 present and absent keys per table, several tables, some with a projection and name placeholders of their own, sometimes filled up to 60 / 99 / exactly 100 keys, the service limit). In a third of the cases the same request object is sent twice (the retry a caller performs; puts and deletes are idempotent) and the second response is the one compared. Oracle: twin-client differential - one pair of clients executes the batch, a second pair the same requests as individual PutItem / DeleteItem calls; the canonical internal dumps (tables and every index) must be equal, the reference model agrees with both, UnprocessedItems is empty; BatchGetItem responses equal, per table, the multiset of individual GetItem results for keys that exist, and (unless the open finding F-BGUNPROC applies) absent keys are not reported as unprocessed. Non-trivial = batch over >= 2 tables, or with a delete of a present key, or a BatchGet with an absent key; distinct = hash of (setup, batch)."
+const ruleC19 = "rapid: a state built by a short history (Put, UpdateItem, DeleteItem, BatchGetItem, ClearTable, refused batches) on 1-3 tables (0-2 indexes each), then one BatchWriteItem (1-25 requests, mixed puts and deletes, several tables, keys present and absent; batches above 20 requests generated with fixed weight; in a fifth of the cases a key may be named twice - DynamoDB rejects those, an implementation that accepts one is compared with the individual requests in the order given) or one BatchGetItem (1-15 present and absent keys per table, several tables, some with a projection and name placeholders of their own, sometimes filled up to 60 / 99 / exactly 100 keys, the service limit). In a third of the cases the same request object is sent twice (the retry a caller performs; puts and deletes are idempotent) and the second response is the one compared. Oracle: twin-client differential - one pair of clients executes the batch, a second pair the same requests as individual PutItem / DeleteItem calls; the canonical internal dumps (tables and every index) must be equal, the reference model agrees with both, UnprocessedItems is empty; BatchGetItem responses equal, per table, the multiset of individual GetItem results for keys that exist, and (unless the open finding F-BGUNPROC applies) absent keys are not reported as unprocessed. Non-trivial = batch over >= 2 tables, or with a delete of a present key, or a BatchGet with an absent key; distinct = hash of (setup, batch)."
 
 // TestC19 decides property C19.
 func TestC19(t *testing.T) {
@@ -798,6 +833,11 @@ func TestC19(t *testing.T) {
 				op = model.Op{Kind: "BatchGet", Batch: []model.TableBatch{tb}}
 			case 10:
 				op = model.Op{Kind: "ClearTable", Table: g.s.Table}
+			case 1:
+				// a batch that is refused as a whole (valid requests beside one bad one)
+				g.failClasses = []string{"batch-bad-key", "batch-index-key-type", "batch-unknown-table"}
+				op, _ = g.failingOp(rt, w.m)
+				op.TrySpec = true
 			}
 			if _, _, f := w.do(op); f != nil {
 				failCase(rt, "C19", "history:C19", f, w.asCase())
